@@ -32,7 +32,7 @@ import traceback
 
 from vf.core import Check, REPO, HarnessError, lean_str
 
-MODULES = ["Model.Cursor", "Model.ScanProgress", "Proofs.Cursor", "Proofs.ScanProgress", "Generated.C05", "Properties.C05"]
+MODULES = ["Model.Cursor", "Model.ScanProgress", "Model.FindParser", "Proofs.Cursor", "Proofs.ScanProgress", "Proofs.FindParser", "Generated.C05", "Properties.C05"]
 _P = "SqlglotModel.Properties.C05."
 THEOREMS = [_P + n for n in [
     "comb_restores", "comb_restores_needs_guard",
@@ -52,6 +52,8 @@ THEOREMS = [_P + n for n in [
     "Scan.tokenizer_funnel_catches_exception", "Scan.tokenize_outcome", "Scan.tokenize_outcome_current_source",
     "Scan.tokenize_funnel_needs_broad_catch",
     "peek_guarded_no_index_error", "peek_off_by_one_guard_index_error", "parser_forward_lookaheads_guarded",
+    "Find.split_join_round_trip", "Find.find_parser_keys_agree", "Find.find_parser_no_key_error", "Find.find_parser_whitespace_split_key_error",
+    "Find.find_parser_key_functions_known",
 ]]
 
 # step budgets for the search oracle, calibrated on the clean tree with ≥ 10x margin (cov["calibration"] in the evidence
@@ -245,6 +247,41 @@ def lookahead_facts(chk: Check):
     return {"sites": sites, "next_users": sorted(set(next_users))}
 
 
+def find_parser_facts(chk: Check):
+    """the two key functions of Parser._find_parser (trie key of a token text, dict key of the consumed texts) and the key
+    function every SHOW_TRIE / SET_TRIE is built with, by ast"""
+    import glob
+    out = {"trie_key": "?", "dict_key": "?", "builds": []}
+    path = os.path.join(REPO, "sqlglot", "parser.py")
+    funcs = _class_funcs(ast.parse(open(path, encoding="utf-8").read()), "Parser")
+    fn = funcs.get("_find_parser")
+    if fn is None:
+        chk.broken.append({"kind": "translator", "what": "C05 translator: structure changed: Parser._find_parser not found"})
+    else:
+        for n in ast.walk(fn):
+            if isinstance(n, ast.Assign) and any(isinstance(t, ast.Name) and t.id == "key" for t in n.targets):
+                out["trie_key"] = _src(n.value)
+            if isinstance(n, ast.Subscript) and isinstance(n.value, ast.Name) and n.value.id == "parsers":
+                out["dict_key"] = _src(n.slice)
+    for path in [os.path.join(REPO, "sqlglot", "parser.py")] + sorted(glob.glob(os.path.join(REPO, "sqlglot", "parsers", "*.py"))):
+        mod = os.path.basename(path)[:-3]
+        try:
+            tree = ast.parse(open(path, encoding="utf-8").read())
+        except Exception:  # noqa
+            continue
+        for n in ast.walk(tree):
+            tgt = None
+            if isinstance(n, ast.Assign) and len(n.targets) == 1 and isinstance(n.targets[0], ast.Name):
+                tgt, val = n.targets[0].id, n.value
+            elif isinstance(n, ast.AnnAssign) and isinstance(n.target, ast.Name) and n.value is not None:
+                tgt, val = n.target.id, n.value
+            if tgt and tgt.endswith("_TRIE") and isinstance(val, ast.Call) and _src(val.func) == "new_trie" and val.args:
+                g = val.args[0]
+                elt = _src(g.elt) if isinstance(g, ast.GeneratorExp) else _src(g)
+                out["builds"].append((f"{mod}.{tgt}", elt))
+    return out
+
+
 def wrapper_facts(chk: Check):
     """the thin wrappers between the public API and TokenizerCore.tokenize / Parser.parse: their bodies must stay
     pass-through (a try/except added there would be a second funnel the pin above does not see)"""
@@ -331,6 +368,10 @@ def translate(chk: Check) -> str:
         "def otherTokenIndexSites : List (String × String × String) := [\n" + ",\n".join(
             f"  ({lean_str(f)}, {lean_str(i)}, {lean_str(g)})" for f, i, g in lookahead_facts(chk)["sites"] if "+" not in i) + "]\n",
         _lean_strs("nextUsers", lookahead_facts(chk)["next_users"]),
+        "-- Parser._find_parser: trie key of one token text, dict key of the consumed texts, and how every *_TRIE is built\n",
+        f"def findParserTrieKey : String := {lean_str(find_parser_facts(chk)['trie_key'])}\n",
+        f"def findParserDictKey : String := {lean_str(find_parser_facts(chk)['dict_key'])}\n",
+        "def trieBuilds : List (String × String) := [" + ", ".join(f"({lean_str(a_)}, {lean_str(b_)})" for a_, b_ in find_parser_facts(chk)["builds"]) + "]\n",
         "-- Parser glue\n",
         _lean_strs("retreatBody", pf["retreat"]),
         _lean_strs("tryParseFinally", pf["try_finally"]),
@@ -1337,6 +1378,45 @@ def keyword_sweep(dialect, words, n_ctx=None, n_cont=None):
                 yield (ctx + cont).replace("{K}", w)
 
 
+TRIE_TABLES = [("SHOW_PARSERS", "SHOW"), ("SET_PARSERS", "SET")]
+
+
+def trie_key_sweep(dialect, quick=True):
+    """every key of every trie-driven lookup table of this dialect (read from the live tables), spelled as a quoted
+    identifier / string token with whitespace variants (leading, trailing, doubled, tab, newline) and case variants, at
+    statement start and mid-statement, whole and split across tokens"""
+    *_, Dialect, _ = sg()
+    d = Dialect.get_or_raise(dialect or None)
+    pc, tk = d.parser_class, d.tokenizer_class
+    idq = sorted((getattr(tk, "_IDENTIFIERS", {}) or {'"': '"'}).items())[:2]
+    quotes = [(a_, b_) for a_, b_ in idq] + [("'", "'")]
+    if quick:
+        quotes = quotes[:1] + quotes[-1:]
+    for table, head in TRIE_TABLES:
+        dct = getattr(pc, table, None) or {}
+        for key in sorted(k for k in dct if isinstance(k, str) and k):
+            words = key.split(" ")
+            variants = [key, key + " ", " " + key, "\t" + key, key + "\n", key.lower() + " ", "  ".join(words), "\t".join(words)]
+            if len(words) > 1:
+                variants += [" ".join(words[:-1]) + "  " + words[-1], words[0] + " ", "\n".join(words)]
+            if not quick:
+                variants += [key.title() + "  ", " " + key + " ", key + "\r\n", key.swapcase() + "\t"]
+            for v in variants:
+                for qa, qb in quotes:
+                    tokq = qa + v + qb
+                    yield f"{head} {tokq}" + (" x = 1" if head == "SET" else "")
+                    yield f"SELECT 1; {head} {tokq} FROM t"
+                    if not quick:
+                        yield f"{head} {tokq}" + ("" if head == "SET" else " x = 1")
+                        yield f"{head} {tokq} LIKE 'a'"
+            if len(words) > 1:
+                for qa, qb in quotes[:1]:
+                    # the key split across a quoted first word (with a blank inside the quotes) and plain further words
+                    yield f"{head} {qa}{words[0]} {qb} " + " ".join(words[1:])
+                    yield f"{head} {words[0]} {qa} " + " ".join(words[1:]) + qb
+                    yield f"{head} " + " ".join(words[:-1])            # cut right after a PREFIX answer: end of chunk
+
+
 def element_words(dialect) -> list:
     """words that start a constraint / property / statement parser of this dialect, plus punctuation: what a list element
     parser may half-consume and give back"""
@@ -1934,6 +2014,54 @@ def correspond_programs(chk: Check) -> list:
     return bad
 
 
+def correspond_find_parser(chk: Check) -> None:
+    """Parser._find_parser on the REAL parser (real in_trie / new_trie) vs the Lean two-step lookup model, on random
+    dicts and token texts with leading / trailing / repeated blanks, tabs and newlines"""
+    _, _, parser, tokens, errors, *_ = sg()
+    from sqlglot.trie import new_trie
+    rng = chk.rng
+    WORDS = ["A", "B", "C", "GLOBAL", "STATUS", "TERSE", "TABLES"]
+    TEXTS = ["A", "B", "C", "A ", " A", "A  B", "A B", "A\tB", "A\nB", "", " ", "  ", "\t", "A B C", "B C", "GLOBAL", "GLOBAL ", "\tGLOBAL",
+             "GLOBAL STATUS", "GLOBAL  STATUS", "STATUS", "TERSE TABLES", "TERSE  TABLES", "TERSE", "TABLES", " TABLES", "A B "]
+    n = chk.pick(700, 8000)
+    lines, expect, cases = [], [], []
+    MON.install()
+    for _ in range(n):
+        keys = sorted({" ".join(rng.choice(WORDS) for _ in range(rng.choice([1, 1, 2, 2, 3]))) for _ in range(rng.randint(1, 5))})
+        texts = [rng.choice(TEXTS) for _ in range(rng.randint(0, 4))]
+        parsers = {k: (lambda self, _k=k: _k) for k in keys}
+        toks = [tokens.Token(tokens.TokenType.IDENTIFIER, text=tx, line=1, col=j + 1, start=j, end=j) for j, tx in enumerate(texts)]
+        psr = parser.Parser(error_level=errors.ErrorLevel.RAISE)
+        psr.reset()
+        psr.sql = " " * (len(toks) + 1)
+        psr._chunks = [toks]
+        psr._chunk_index = 0
+        psr._advance_chunk()
+        MON.reset()
+        MON.p_cap = 1000
+        try:
+            r = with_watchdog(lambda: psr._find_parser(parsers, new_trie(k.split(" ") for k in parsers)), 5.0)
+            out = "none" if r is None else "found " + json.dumps(r(psr))
+        except KeyError as e:
+            out = "keyerror " + json.dumps(e.args[0])
+        except IndexError:
+            out = "indexerror"
+        except BaseException as e:  # noqa
+            out = "other " + type(e).__name__
+        finally:
+            MON.reset()
+        lines.append(json.dumps({"op": "find", "keys": keys, "toks": texts}))
+        expect.append(out)
+        cases.append((keys, texts))
+        chk.count("find-outcome:" + out.split(" ")[0])
+        chk.case(("find", keys, texts), nontrivial=len(texts) > 0)
+    got = chk.driver("C05", lines)
+    chk.corr_cases += len(lines)
+    for g, e, c in zip(got, expect, cases):
+        if g != e:
+            chk.correspondence_broken("Parser._find_parser vs the two-step lookup model", {"keys": c[0], "token_texts": c[1], "model": g, "impl": e})
+
+
 # =========================================================================================== correspondence (B), (C)
 def token_type_ids():
     _, _, _, tokens, *_ = sg()
@@ -2251,6 +2379,14 @@ def search(chk: Check, hints: list, budget_s: float) -> None:
                     break
                 one(form.replace("{K}", w), d, LEVELS[i % 4], None, "keyword-sweep")
                 n_sweep += 1
+    # trie-driven lookups (SHOW / SET sub-parsers): every key as a quoted token with whitespace / case variants
+    seen_tk = set()
+    for d in dialects:
+        for i, sql in enumerate(trie_key_sweep(d, chk.quick)):
+            if len(chk.violations) >= MAXV or time.time() - t0 > budget_s:
+                break
+            one(sql, d, LEVELS[i % 4], None, "trie-key-sweep")
+            n_sweep += 1
     chk.cov["keyword_sweep_inputs"] = n_sweep
     # a fixed number of inputs per tier (deterministic for a given VERIF_SEED), with the time budget as a safety cap
     n_inputs = int(os.environ.get("C05_INPUTS", "0")) or (chk.pick(1200, 70000) * (2 if chk.broken else 1))
@@ -2299,6 +2435,7 @@ def run(chk: Check) -> None:
     try:
         try:
             correspond_programs(chk)
+            correspond_find_parser(chk)
             chk.cov["t_programs_s"] = round(chk.elapsed(), 1)
             if os.environ.get("C05_DEBUG_DUMP"):
                 print("after A", chk.elapsed(), flush=True)
